@@ -34,4 +34,25 @@ def stepSrcR (progs : Nat → List Act) (s : St) (iadd : Bool) (n : Nat) (vs : L
       let r := notifyAllR progs s res.1.2
       ({ r.1 with lists := fun m => if m = n then some res.1.1 else r.1.lists m }, .ok r.2, res.2)
 
+/-! ### histories that contain such calls -/
+
+/-- an operation of a history: one of `Op`, or `extend(src)` / `lst += src` (`iadd`) from an iterable that yields
+    `vs[0..k)` and then raises (`k ≥ len(vs)`: it just ends) -/
+inductive OpS where
+  | op (o : Op)
+  | src (iadd : Bool) (n : Nat) (vs : List Int) (k : Nat)
+deriving Repr, DecidableEq
+
+def stepS (progs : Nat → List Act) (s : St) : OpS → St × Out × Bool
+  | .op o => let r := stepR progs s o; (r.1, r.2, false)
+  | .src iadd n vs k => stepSrcR progs s iadd n vs k
+
+/-- state, outputs and, per operation, whether the exception of an iterable came out of it -/
+def runS (progs : Nat → List Act) (s : St) : List OpS → St × List Out × List Bool
+  | [] => (s, [], [])
+  | o :: os =>
+    let r := stepS progs s o
+    let rest := runS progs r.1 os
+    (rest.1, r.2.1 :: rest.2.1, r.2.2 :: rest.2.2)
+
 end Mesa.Signals
